@@ -149,50 +149,62 @@ def marksApply (c : Ctx) (marks : MarkArray) (anchorOf : Nat → Anchor) (markIn
       | .ok none => .ok (c, false)
       | .ok (some q) => .ok ({ c with pos := q, hasAttach := true, idx := c.idx + 1 }, true)
 
+/-- the tail of both appliers once the cache has been refreshed: `last_base == -1` → no target -/
+def withTarget (c : Ctx) (k : Nat → Info → GM (Ctx × Bool)) : GM (Ctx × Bool) :=
+  if c.lastBase == -1 then .ok (c, false)
+  else if c.lastBase < 0 then .error .oob          -- `last_base as u32` of a negative value: never stored
+  else
+    match getInfo c.info c.lastBase.toNat with
+    | .error e => .error e
+    | .ok b => k c.lastBase.toNat b
+
 /-- src: mark_base_pos.rs::MarkToBaseAdjustment::apply -/
-def markBaseApply (c : Ctx) (markCov baseCov : Gsub.Cov) (marks : MarkArray) (anchors : Matrix) : GM (Ctx × Bool) := do
-  let cur ← getInfo c.info c.idx
-  match Gsub.Cov.index markCov (cur.gid % 65536) with
-  | none => pure (c, false)
-  | some markIndex =>
-    let it ← iterAt c 0 IGNORE_MARKS
-    let (lb, untl) ← lastBaseSearch (okBase c.font it c.info baseCov) c.idx c.lastBase c.lastBaseUntil
-    let c := { c with lastBase := lb, lastBaseUntil := untl }
-    if lb == -1 then pure (c, false)
-    else
-      let t := lb.toNat
-      let b ← getInfo c.info t
-      match Gsub.Cov.index baseCov (b.gid % 65536) with
-      | none => pure (c, false)
-      | some baseIndex => marksApply c marks (anchors.get baseIndex) markIndex t
+def markBaseApply (c : Ctx) (markCov baseCov : Gsub.Cov) (marks : MarkArray) (anchors : Matrix) : GM (Ctx × Bool) :=
+  match getInfo c.info c.idx with
+  | .error e => .error e
+  | .ok cur =>
+    match Gsub.Cov.index markCov (cur.gid % 65536) with
+    | none => .ok (c, false)
+    | some markIndex =>
+      match iterAt c 0 IGNORE_MARKS with
+      | .error e => .error e
+      | .ok it =>
+        match lastBaseSearch (okBase c.font it c.info baseCov) c.idx c.lastBase c.lastBaseUntil with
+        | .error e => .error e
+        | .ok (lb, untl) =>
+          withTarget { c with lastBase := lb, lastBaseUntil := untl } fun t b =>
+            match Gsub.Cov.index baseCov (b.gid % 65536) with
+            | none => .ok ({ c with lastBase := lb, lastBaseUntil := untl }, false)
+            | some baseIndex =>
+              marksApply { c with lastBase := lb, lastBaseUntil := untl } marks (anchors.get baseIndex) markIndex t
+
+/-- "Find component to attach to": the mark's own component when it belongs to this ligature, else the last one -/
+def ligComponent (lig cur : Info) (compCount : Nat) : Nat :=
+  (if Gsub.ligId lig != 0 && Gsub.ligId lig == Gsub.ligId cur && Gsub.ligComp cur > 0
+   then min (Gsub.ligComp cur) compCount else compCount) - 1
 
 /-- src: mark_lig_pos.rs::MarkToLigatureAdjustment::apply -/
-def markLigApply (c : Ctx) (markCov ligCov : Gsub.Cov) (marks : MarkArray) (ligs : List Matrix) : GM (Ctx × Bool) := do
-  let cur ← getInfo c.info c.idx
-  match Gsub.Cov.index markCov (cur.gid % 65536) with
-  | none => pure (c, false)
-  | some markIndex =>
-    let it ← iterAt c 0 IGNORE_MARKS
-    let (lb, untl) ← lastBaseSearch (okLig c.font it c.info) c.idx c.lastBase c.lastBaseUntil
-    let c := { c with lastBase := lb, lastBaseUntil := untl }
-    if lb == -1 then pure (c, false)
-    else
-      let t := lb.toNat
-      let b ← getInfo c.info t
-      match Gsub.Cov.index ligCov (b.gid % 65536) with
-      | none => pure (c, false)
-      | some ligIndex =>
-        match ligs[ligIndex]? with
-        | none => pure (c, false)
-        | some ligAttach =>
-          let compCount := ligAttach.rows
-          if compCount == 0 then pure (c, false)
-          else
-            let ligId := Gsub.ligId b
-            let markId := Gsub.ligId cur
-            let markComp := Gsub.ligComp cur
-            let compIndex := (if ligId != 0 && ligId == markId && markComp > 0 then min markComp compCount else compCount) - 1
-            marksApply c marks (ligAttach.get compIndex) markIndex t
+def markLigApply (c : Ctx) (markCov ligCov : Gsub.Cov) (marks : MarkArray) (ligs : List Matrix) : GM (Ctx × Bool) :=
+  match getInfo c.info c.idx with
+  | .error e => .error e
+  | .ok cur =>
+    match Gsub.Cov.index markCov (cur.gid % 65536) with
+    | none => .ok (c, false)
+    | some markIndex =>
+      match iterAt c 0 IGNORE_MARKS with
+      | .error e => .error e
+      | .ok it =>
+        match lastBaseSearch (okLig c.font it c.info) c.idx c.lastBase c.lastBaseUntil with
+        | .error e => .error e
+        | .ok (lb, untl) =>
+          withTarget { c with lastBase := lb, lastBaseUntil := untl } fun t b =>
+            match (Gsub.Cov.index ligCov (b.gid % 65536)).bind (fun k => ligs[k]?) with
+            | none => .ok ({ c with lastBase := lb, lastBaseUntil := untl }, false)
+            | some ligAttach =>
+              if ligAttach.rows == 0 then .ok ({ c with lastBase := lb, lastBaseUntil := untl }, false)
+              else
+                marksApply { c with lastBase := lb, lastBaseUntil := untl } marks
+                  (ligAttach.get (ligComponent b cur ligAttach.rows)) markIndex t
 
 /-- src: mark_mark_pos.rs::MarkToMarkAdjustment::apply -/
 def markMarkApply (c : Ctx) (mark1Cov mark2Cov : Gsub.Cov) (marks : MarkArray) (anchors : Matrix) : GM (Ctx × Bool) := do
